@@ -71,8 +71,12 @@ class Ctx:
         except subprocess.TimeoutExpired:
             raise Infra("time-out after %ss: %s" % (timeout, " ".join(argv[:4])))
         if p.returncode not in ok:
-            raise Infra("command failed (%d): %s\n%s\n%s" % (p.returncode, " ".join(argv[:6]), p.stdout[-2000:], p.stderr[-4000:]))
+            e = Infra("command failed (%d): %s\n%s\n%s" % (p.returncode, " ".join(argv[:6]), p.stdout[-2000:], p.stderr[-4000:]))
+            e.stderr = p.stderr
+            e.returncode = p.returncode
+            raise e
         return p
+
 
     # ---------------------------------------------------------------- tlc
     def tlc(self, module, cfg_text, name, workers=None, simulate=None, depth=None, timeout=900,
@@ -240,3 +244,22 @@ def read_ndjson(path):
             if line:
                 out.append(json.loads(line))
     return out
+
+
+def go_crash_site(stderr):
+    """For the stderr of a Go process killed by the runtime (fatal error / unrecovered panic / SIGSEGV): the
+    function and file:line of the first frame of the crashing goroutine that is neither the runtime nor the
+    standard library. Returns (what, function, location) or None."""
+    m = re.search(r"^(fatal error: .*|panic: .*|unexpected fault address .*)$", stderr, re.M)
+    if not m:
+        return None
+    rest = stderr[m.start():]
+    g = re.search(r"^goroutine \d+ .*\[running\]:\n", rest, re.M)
+    if not g:
+        return None
+    frames = re.findall(r"^([\w./*()\[\]…-]+)\(.*\)\n\t(/[^\s:]+:\d+)", rest[g.end():].split("\n\ngoroutine ")[0], re.M)
+    for fn, loc in frames:
+        if loc.startswith("/usr/lib/go") or "/src/runtime/" in loc:
+            continue
+        return (m.group(1).strip(), fn, loc)
+    return None
